@@ -172,6 +172,26 @@ def _check_own(ctx):
                  "the offset a key record has after being rewritten in %s is neither compared with its previous offset nor returned: if the record "
                  "moved, whatever pointed at it still points at the freed slot and the entry (and the rest of its chain) is lost" % fn.name, where=where(fn, site))
     ctx.floor("relink", "rewrite results compared with the old offset", n_cmp, 2)
+    # between the move and the re-link the chain still points at the slot that was just freed: nothing on the moved arm
+    # may *read through* the chain by key (the lookup compares the key bytes stored at every chain member, the freed
+    # slot included); the predecessor is found by comparing offsets only
+    from .util import reachable_fns as _rf
+    lk, kb = R.need("LOOKUP"), R.need("KEY_BYTES_AT")
+    for fn, moved, site in moved_arms:
+        region = region_dominated(fn, moved)
+        hit = None
+        for b_ in sorted(region):
+            t_ = fn.blocks[b_]["term"]
+            if not t_ or t_["t"] != "call" or fn.is_cleanup(b_):
+                continue
+            tgs = prog.targets(t_, fn)[0]
+            reach = _rf(prog, [x for x in tgs if x.crate == "abyssiniandb"], crates=("abyssiniandb",))
+            if lk.id in reach or kb.id in reach or any(x.id in (lk.id, kb.id) for x in tgs):
+                hit = b_
+                break
+        ctx.check(hit is None, "relink", "%s:moved-arm-walks-by-offset" % fn.name,
+                  "after a key record has moved in %s, the chain is searched by key (lookup / stored-key comparison) while it still links to the freed slot" % fn.name,
+                  where=where(fn, hit if hit is not None else moved))
     check_relink_values(ctx, prog, R, eff, moved_arms)
 
 
